@@ -368,6 +368,10 @@ class FunTr:
     def iterable(self, v, e):
         self.bail(e, "iteration over a value of type %s" % v.ty)
 
+    def unpack(self, v, n, node, ident):
+        """components of the tuple-valued `v` (already bound to the Gallina identifier `ident`) for `a, b = v`"""
+        self.bail(node, "unpacking of a value of type %s into %d names" % (v.ty, n))
+
     def glue(self, s, env):
         return False
 
@@ -566,6 +570,19 @@ class FunTr:
                     v = Val(v.term, v.ty, "param")
                 pre, env2 = self.assign(t.id, v, env, s)
                 return self.wrap(B, pre + after(env2))
+            if isinstance(t, (ast.Tuple, ast.List)) and t.elts and all(isinstance(x, ast.Name) for x in t.elts):
+                # a, b = e: e is evaluated once, then the names are bound left to right to its components
+                names = [x.id for x in t.elts]
+                if len(set(names)) != len(names):
+                    self.bail(s, "a name occurs twice in the targets of `%s`" % src_of(s)[:60])
+                v = self.expr(s.value, env, B)
+                pid = self.fresh("unpacked")
+                parts = self.unpack(v, len(names), s, pid)
+                pre, env2 = "let %s := %s in\n " % (pid, v.term), env
+                for nm, pv in zip(names, parts):
+                    p1, env2 = self.assign(nm, pv, env2, s)
+                    pre += p1
+                return self.wrap(B, pre + after(env2))
             if isinstance(t, ast.Subscript) and isinstance(t.value, ast.Name):
                 # Python evaluates the right-hand side first, then the container and the key
                 val = self.expr(s.value, env, B)
@@ -651,7 +668,12 @@ class FunTr:
             self.bail(s, "for ... else")
         if self.in_loop or self.discover is not None:
             self.bail(s, "nested loop")
-        if not isinstance(s.target, ast.Name):
+        if isinstance(s.target, ast.Name):
+            lvs = [s.target.id]
+        elif isinstance(s.target, ast.Tuple) and s.target.elts and all(isinstance(x, ast.Name) for x in s.target.elts) \
+                and len({x.id for x in s.target.elts}) == len(s.target.elts):
+            lvs = [x.id for x in s.target.elts]
+        else:
             self.bail(s, "loop target `%s`" % src_of(s.target))
         for n in ast.walk(s):
             if isinstance(n, (ast.Break, ast.Continue, ast.While, ast.Try, ast.With, ast.Yield, ast.YieldFrom, ast.Return,
@@ -661,10 +683,14 @@ class FunTr:
         B = []
         itv = self.expr(s.iter, env, B)
         lst, ety = self.iterable(itv, s.iter)
-        lv = s.target.id
         body = list(s.body)
-        if lv in assigned_names(body) or lv in self.protected or lv in self.aliases:
-            self.bail(s, "loop variable `%s` is assigned in the loop body / shadows a special name" % lv)
+        for lv in lvs:
+            if lv in assigned_names(body) or lv in self.protected or lv in self.aliases:
+                self.bail(s, "loop variable `%s` is assigned in the loop body / shadows a special name" % lv)
+        # the object iterated over must not be changed by the body (Python: undefined / RuntimeError for dicts)
+        clash = sorted(loaded_names([ast.Expr(value=s.iter)]) & set(assigned_names(body)))
+        if clash:
+            self.bail(s, "the loop body assigns `%s`, which the loop iterates over" % ", ".join(clash))
         assigned = assigned_names(body)
         live = self.live_after()
         # -- discovery passes: which assigned names does some path read before that path assigns them?
@@ -678,7 +704,11 @@ class FunTr:
                     denv[a] = Entry(denv[a])
                 elif a in known:
                     denv[a] = Val("carried_" + a, "maybe:" + known[a])
-            denv[lv] = Val("elem", ety)
+            if len(lvs) == 1:
+                denv[lvs[0]] = Val("elem", ety)
+            else:
+                for nm, pv in zip(lvs, self.unpack(Val("elem", ety), len(lvs), s, "elem")):
+                    denv[nm] = pv
             self.in_loop += 1
             saved_rest, self.rest_stack = self.rest_stack, []
             try:
@@ -723,13 +753,18 @@ class FunTr:
                 self.bail(s, "loop-carried local `%s` changes its type in the loop body (%s vs %s)" % (a, ty, ", ".join(sorted(tys))))
         # -- the real pass
         st_ids = [self.fresh(a + "_st") for a, _, _, _ in comp]
-        ev = self.fresh(lv)
+        ev = self.fresh(lvs[0] if len(lvs) == 1 else "item")
         benv = dict(env)
         for a in assigned:
             benv.pop(a, None)
         for (a, ty, bound, _), sid in zip(comp, st_ids):
             benv[a] = Val(sid, ty if bound else "maybe:" + ty)
-        benv[lv] = Val(ev, ety)
+        if len(lvs) == 1:
+            benv[lvs[0]] = Val(ev, ety)
+        else:
+            # for a, b in L: every element is unpacked into the loop variables
+            for nm, pv in zip(lvs, self.unpack(Val(ev, ety), len(lvs), s, ev)):
+                benv[nm] = pv
 
         def pack(e2):
             parts = []
@@ -756,7 +791,7 @@ class FunTr:
         init = self.tuple_term([t for _, _, _, t in comp])
         out_ids = [self.fresh(a) for a, _, _, _ in comp]
         env2 = dict(env)
-        for a in assigned + [lv]:
+        for a in assigned + lvs:
             # assigned in the loop and not carried (no later statement reads it before rebinding it - checked textually;
             # the marker makes any such read a TranslateError rather than a wrong value)
             env2[a] = Val("", "dropped")
